@@ -2,7 +2,12 @@ from harness.ec_common import x86_plan as P
 
 
 def x86_queries(tier):
+    from vlib.core import Query
     qs = P.build("mad", tier) + P.mul_queries(tier)
+    for k in (1, 2, 3, 4):
+        for g in (False, True):
+            qs.append(Query("lemma/update-algebra/k%d%s" % (k, "_gfni" if g else ""), "harness.ec_common.x86ec:update_algebra_lemma", dict(k=k, gfni=g),
+                            core=True, family="lemma/update-algebra", weight=5))
     info = dict(P.INFO_COMMON)
     info["functions_encoded"] = ["gf_{1..6}vect_mad_{sse,avx,avx2,avx512,avx512_gfni}", "gf_{1..5}vect_mad_avx2_gfni", "gf_vect_mul_{sse,avx} (machine code)"]
     info["bounds"] = {"len": "quick: every 0..W+1 plus residues around 2W,3W; thorough: every 0..4W+17 (W = 16/16/32/64/64/32); gf_vect_mul: multiples of 32 up to 160 (640) and six non-multiples",
